@@ -11,6 +11,7 @@ import (
 
 	"github.com/enbility/spine-go/api"
 	"github.com/enbility/spine-go/model"
+	"github.com/enbility/spine-go/spine"
 )
 
 type RaceSched struct {
@@ -30,6 +31,7 @@ type RaceLine struct {
 	Distinct bool        `json:"distinct"` // feature numbers pairwise distinct
 	Panic    string      `json:"panic"`
 	Hooks    []HookEvent `json:"hooks"`
+	Variant  int         `json:"variant"`
 }
 
 func raceReplay(args []string) {
@@ -37,7 +39,7 @@ func raceReplay(args []string) {
 	topoF := fs.String("topo", "", "")
 	inF := fs.String("in", "", "schedules ndjson")
 	outF := fs.String("out", "", "trace ndjson")
-	mech := fs.String("mech", "bind", "bind | feature | usecase")
+	mech := fs.String("mech", "bind", "bind | feature | usecase | entity")
 	must(fs.Parse(args))
 	tb, err := os.ReadFile(*topoF)
 	must(err)
@@ -62,7 +64,7 @@ func raceReplay(args []string) {
 }
 
 func runRace(topo *Topo, mech string, rs RaceSched) RaceLine {
-	line := RaceLine{Mech: mech, Sched: rs.Sched, Unsafe: rs.Unsafe, Blocked: -1, Effects: []string{}}
+	line := RaceLine{Mech: mech, Sched: rs.Sched, Unsafe: rs.Unsafe, Blocked: -1, Effects: []string{}, Variant: rs.Variant}
 	s := NewSystem(topo)
 	defer s.Close()
 	// both peers connected and discovered
@@ -74,6 +76,7 @@ func runRace(topo *Topo, mech string, rs RaceSched) RaceLine {
 	defer sched.Close()
 	procPeer := map[string]string{"A": "p1", "B": "p2", "C": "p1"}
 	var feats [3]api.FeatureLocalInterface
+	var raceEnts [3]*spine.EntityLocal
 	switch mech {
 	case "bind":
 		for i, name := range []string{"A", "B", "C"} {
@@ -111,6 +114,27 @@ func runRace(topo *Topo, mech string, rs RaceSched) RaceLine {
 				}
 			})
 		}
+	case "entity":
+		// the entity list of the device is read, filtered / extended and stored: A removes entity [3] (which has a use
+		// case and a feature), B adds entity [4], C adds entity [3,1]; p1 is subscribed to node management.  A parks
+		// inside its clean-up (variant 0: in the use-case removal at the start of RemoveEntity; variant 1: behind the
+		// clean-up, before the list is replaced), B and C behind the insertion, before the announcement
+		s.step(Action{"a": "sub", "p": "p1", "c": "nm", "s": "NM", "ft": "NodeManagement", "ack": false})
+		s.peers["p1"].w.drain()
+		for i, e := range []string{"3", "4", "3.1"} {
+			raceEnts[i] = spine.NewEntityLocal(s.dev, model.EntityTypeTypeCEM, entAddr(e), 0)
+			raceEnts[i].GetOrAddFeature(model.FeatureTypeTypeMeasurement, model.RoleTypeClient)
+		}
+		s.dev.AddEntity(raceEnts[0])
+		raceEnts[0].AddUseCaseSupport("CEM", "ucA", "1.0.0", "release", true, []model.UseCaseScenarioSupportType{1})
+		s.peers["p1"].w.drain()
+		agate := []string{"UseCase.beforeStore"}
+		if rs.Variant == 1 {
+			agate = []string{"RemoveEntity.cleaned"}
+		}
+		sched.Add("A", agate, func() { s.dev.RemoveEntity(raceEnts[0]) })
+		sched.Add("B", []string{"AddEntity.appended"}, func() { s.dev.AddEntity(raceEnts[1]) })
+		sched.Add("C", []string{"AddEntity.appended"}, func() { s.dev.AddEntity(raceEnts[2]) })
 	default:
 		panic("mech " + mech)
 	}
@@ -194,6 +218,78 @@ func runRace(topo *Topo, mech string, rs RaceSched) RaceLine {
 					line.Same = false // the returned feature's address does not resolve back to it
 				}
 			}
+		}
+	case "entity":
+		// count = the processes whose change is in the tree at the end; same = exactly one notification per change to the
+		// subscriber; distinct = a discovery read lists exactly the tree and every announced address resolves
+		have := map[string]bool{}
+		line.Distinct = true
+		for _, ent := range s.dev.Entities() {
+			e := entStr(ent.Address().Entity)
+			if dynamicEnt(e) {
+				have[e] = true
+				for _, f := range ent.Features() {
+					var back api.FeatureLocalInterface = s.dev.FeatureByAddress(f.Address())
+					if back != f {
+						line.Distinct = false
+					}
+				}
+			}
+		}
+		want := map[string]bool{}
+		for i, name := range []string{"A", "B", "C"} {
+			if !used[name] {
+				continue
+			}
+			e := []string{"3", "4", "3.1"}[i]
+			if (i == 0 && !have[e]) || (i > 0 && have[e]) {
+				line.Count++
+				line.Effects = append(line.Effects, e)
+			}
+			want[[]string{"removed", "added", "added"}[i]+" "+e] = true
+		}
+		got := map[string]int{}
+		for _, raw := range s.peers["p1"].w.drain() {
+			var dg model.Datagram
+			if json.Unmarshal(raw, &dg) != nil || len(dg.Datagram.Payload.Cmd) != 1 {
+				continue
+			}
+			dd := dg.Datagram.Payload.Cmd[0].NodeManagementDetailedDiscoveryData
+			if dd == nil || len(dd.EntityInformation) != 1 || dd.EntityInformation[0].Description == nil || dd.EntityInformation[0].Description.EntityAddress == nil || dd.EntityInformation[0].Description.LastStateChange == nil {
+				continue
+			}
+			d := dd.EntityInformation[0].Description
+			got[string(*d.LastStateChange)+" "+entStr(d.EntityAddress.Entity)]++
+		}
+		line.Same = len(got) == len(want)
+		for k := range want {
+			if got[k] != 1 {
+				line.Same = false
+			}
+		}
+		p2 := s.peers["p2"]
+		p2.w.drain()
+		s.inject(p2, model.CmdClassifierTypeRead, s.remoteAddr(p2, "nm"), s.nmLocal(), false, nil,
+			model.CmdType{NodeManagementDetailedDiscoveryData: &model.NodeManagementDetailedDiscoveryDataType{}})
+		replied := false
+		for _, raw := range p2.w.drain() {
+			var dg model.Datagram
+			if json.Unmarshal(raw, &dg) != nil || len(dg.Datagram.Payload.Cmd) != 1 || dg.Datagram.Payload.Cmd[0].NodeManagementDetailedDiscoveryData == nil {
+				continue
+			}
+			t, _ := absDiscovery(dg.Datagram.Payload.Cmd[0].NodeManagementDetailedDiscoveryData, localDevAddr)
+			replied = true
+			if len(t.Ents) != len(have) {
+				line.Distinct = false
+			}
+			for _, e := range t.Ents {
+				if !have[e] {
+					line.Distinct = false
+				}
+			}
+		}
+		if !replied {
+			line.Distinct = false
 		}
 	case "usecase":
 		// count = the processes whose change is in the registry at the end
